@@ -180,7 +180,8 @@ CLAIMED = {
         "chunks; the reference server's slice for each range is the concatenation of the stored bytes of its group; with the regex "
         "oracle reading that response as intended (hypothesis Honest) the round is carried out under ANY fragment size, every "
         "requested chunk becomes valid and no other mark changes; the number of marks still 0 strictly decreases, so the loop "
-        "ends without error and with every chunk valid, and the target IS B (or a collision).  Hypotheses that remain: Honest "
+        "ends without error and with every chunk valid, and the target IS B (or a collision).  Hypotheses that remain: Honest - which is SATISFIABLE for every transfer number, file length and request (refRx_honest: a "
+        "reference regex function written in Lean; update_converges_ref is the closed statement with it, hypotheses about the files only) - "
         "(glibc's regexec finds the boundary and the two numbers of each Content-Range - regex semantics only: that a part header's "
         "first CRLFCRLF is its end and that the closing delimiter holds no part header are proved about the server's text, "
         "partHdr_noEarly / closing_noHeader) and that the scan marked the chunks without stored bytes valid (marks_of_scan proves the rest of the shape "
